@@ -13,6 +13,7 @@ import (
 	"net/url"
 	"reflect"
 	"runtime"
+	"testing/iotest"
 	"time"
 	"verifharness/internal/netx"
 
@@ -365,6 +366,25 @@ func Run(args []string) *rep.Report {
 		if len(input) < 64<<10 {
 			if dr := decodeReused(input); dr.ok != d.ok || dr.panic != "" || (d.ok && !reflect.DeepEqual(dr.m, d.m)) {
 				bad("decode-depends-on-earlier-message", tc, fmt.Sprintf("into a fresh Message: ok=%v %+v; into a Message that had been decoded into before: ok=%v %+v %s %s", d.ok, d.m, dr.ok, dr.m, dr.err, dr.panic))
+			}
+		}
+		if len(input) < 64<<10 {
+			// decoding is a function of the bytes, however the reader hands them out: one at a time, in halves, the last ones together with io.EOF
+			for name, rd := range map[string]io.Reader{"one byte per Read": iotest.OneByteReader(bytes.NewReader(input)), "half of what is asked for per Read": iotest.HalfReader(bytes.NewReader(input)),
+				"data together with EOF": iotest.DataErrReader(bytes.NewReader(input))} {
+				var sm message.Message
+				serr := func() (err error) {
+					defer func() {
+						if e := recover(); e != nil {
+							err = fmt.Errorf("panic: %v", e)
+						}
+					}()
+					return sm.UnmarshalCBOR(rd)
+				}()
+				if (serr == nil) != d.ok || (d.ok && !reflect.DeepEqual(project(&sm), d.m)) {
+					bad("decode-depends-on-reader", tc, fmt.Sprintf("from a byte slice: ok=%v %+v %s; from a reader that delivers %s: %v %+v", d.ok, d.m, d.err, name, serr, project(&sm)))
+					break
+				}
 			}
 		}
 		bound := uint64(3<<20 + 4*len(input))
